@@ -279,6 +279,52 @@ func RunC17(c *Ctx) {
 			}
 		})
 	}
+	// very deep trees (the helpers have no depth limit of their own, unlike the decoders): a slice
+	// chain and a map chain of each depth with an invalid string / key at the bottom
+	// (seeded change C17r4-m2 stopped converting below container 10,000)
+	if c.Shard == 0 || c.NShards <= 1 {
+		dc := &h.Case{Family: "deep-trees"}
+		for _, depth := range []int{2, 300, 9999, 10000, 10001, 10002, 12000} {
+			depth := depth
+			dc.Desc = fmt.Sprintf("container chain of depth %d with invalid UTF-8 at the bottom", depth)
+			dc.Input = []byte(dc.Desc)
+			c.Rec.R.Cases++
+			c.Rec.R.Nontrivial++
+			c.Guarded(dc, "StdLibCompatibleSlice/Map (deep)", func() {
+				var sl interface{} = "bad\xffstr"
+				var mp interface{} = "bad\xffstr"
+				for i := 0; i < depth; i++ {
+					sl = []interface{}{sl}
+					mp = map[string]interface{}{"k\xfe": mp}
+				}
+				gs := rjson.StdLibCompatibleSlice(sl.([]interface{}))
+				gm := rjson.StdLibCompatibleMap(mp.(map[string]interface{}))
+				c.Rec.Evals(2)
+				c.Rec.C("deep_trees_converted")
+				var x interface{} = gs
+				for i := 0; i < depth; i++ {
+					x = x.([]interface{})[0]
+				}
+				if x != refmodel.ToValid([]byte("bad\xffstr")) {
+					c.Rec.AddViolation(h.Violation{Property: c.Prop, Oracle: "StdLibCompatibleSlice leaves a string unconverted at great depth", Entry: "StdLibCompatibleSlice", Family: dc.Family, Desc: dc.Desc, Script: fmt.Sprintf("depth=%d", depth), Expected: fmt.Sprintf("%q", refmodel.ToValid([]byte("bad\xffstr"))), Observed: fmt.Sprintf("%q", x), Seed: c.Seed, Tier: c.Tier})
+				}
+				var y interface{} = gm
+				okKeys := true
+				for i := 0; i < depth; i++ {
+					m := y.(map[string]interface{})
+					v, ok := m[refmodel.ToValid([]byte("k\xfe"))]
+					if !ok {
+						okKeys = false
+						break
+					}
+					y = v
+				}
+				if !okKeys || y != refmodel.ToValid([]byte("bad\xffstr")) {
+					c.Rec.AddViolation(h.Violation{Property: c.Prop, Oracle: "StdLibCompatibleMap leaves a key or string unconverted at great depth", Entry: "StdLibCompatibleMap", Family: dc.Family, Desc: dc.Desc, Script: fmt.Sprintf("depth=%d", depth), Expected: "every key and the innermost string converted", Observed: fmt.Sprintf("keys converted all the way down: %v, innermost %q", okKeys, y), Seed: c.Seed, Tier: c.Tier})
+				}
+			})
+		}
+	}
 	// decoded documents: helper(ReadValue(d)) == json.Unmarshal(d) when no keys collide
 	c.RunDocs([]string{"W3small"}, func(cs *h.Case) { checkCompatDoc(c, cs) })
 }
